@@ -101,7 +101,7 @@ pub fn timeline(cfg: &HybCfg, ops: &[HOp], trace: &HTrace) -> Timeline {
                 open_handles.remove(version);
             }
             (HOp::Get { k }, _) | (HOp::Fetch { k, .. }, _) => lookup_steps.entry(*k as u64).or_default().push(step),
-            (HOp::Reopen, _) | (HOp::Close, _) => {
+            (HOp::Reopen, _) | (HOp::Close, _) | (HOp::CloseCrashReopen, _) | (HOp::ReopenNoClose, _) => {
                 for (v, (k, s)) in std::mem::take(&mut open_handles) {
                     held_at_close.insert(v, (k, s, step));
                 }
@@ -126,7 +126,7 @@ pub fn timeline(cfg: &HybCfg, ops: &[HOp], trace: &HTrace) -> Timeline {
                     d.drop_step = Some(step);
                 }
             }
-            (HOp::Reopen, _) | (HOp::Close, _) => {
+            (HOp::Reopen, _) | (HOp::Close, _) | (HOp::CloseCrashReopen, _) | (HOp::ReopenNoClose, _) => {
                 for d in disk_only.values_mut() {
                     if d.drop_step.is_none() {
                         d.drop_step = Some(step);
@@ -166,7 +166,7 @@ pub fn timeline(cfg: &HybCfg, ops: &[HOp], trace: &HTrace) -> Timeline {
                     });
                 }
             }
-            (HOp::Reopen, HRet::Reopened(true)) => {
+            (HOp::Reopen | HOp::CloseCrashReopen | HOp::ReopenNoClose, HRet::Reopened(true)) => {
                 // What a reopen may legitimately bring back (documented):
                 //  * without the tombstone log, recovery re-indexes entries whose delete was only in memory;
                 //  * without flush_on_close, the newest versions that only lived in memory are lost, so an older copy
